@@ -1,7 +1,147 @@
-/- C08 line-protocol driver (core-only). Stub until the property's model lands. -/
+/- C08 line-protocol driver (core-only).
+
+  C08 varint <hex>                      ReadVarInt on the bytes
+  C08 wvarint <n>                       WriteVarInt / VarIntSerializeSize
+  C08 dec <kind> <pver> <b|w> <hex>     BtcDecode of one payload (rest reported)
+  C08 msg <pver> <net> <b|w> <hex>      ReadMessageWithEncodingN on a byte stream
+  C08 txbytes <hex> / blockbytes <hex>  btcutil.NewTxFromBytes / NewBlockFromBytes
+-/
+import BV.Common.Hex
+import BV.Common.Sha256
+import BV.C08.Model
 namespace BV.C08.Driver
+open BV.Hex BV.Codec BV.C08
+
+class Dump (α : Type) where
+  dump : α → String
+open Dump
+
+instance : Dump Nat := ⟨toString⟩
+instance : Dump Bool := ⟨fun b => if b then "1" else "0"⟩
+instance : Dump Unit := ⟨fun _ => "u"⟩
+instance (priority := high) : Dump Bytes := ⟨listToHexTok⟩
+instance {α β : Type} [Dump α] [Dump β] : Dump (α × β) := ⟨fun p => dump p.1 ++ "," ++ dump p.2⟩
+instance {α : Type} [Dump α] : Dump (List α) :=
+  ⟨fun l => "[" ++ ";".intercalate (l.map dump) ++ "]"⟩
+
+/-- K of the allocation bound checked on both sides: K · MaxMessagePayload -/
+def allocK : Nat := 12
+
+def allocTok (n : Nat) : String :=
+  if n ≤ allocK * MaxMessagePayload then " a=ok" else s!" a=EXCESS({n})"
+
+/-- the Go decoders that accept more than the canonical layout, packaged with the canonical encoder -/
+def versionGo (pver : Nat) : Codec VersionVal := { version pver with dec := versionDecGo }
+def addrV2Go : Codec (List NetAddrV2) := { addrV2 with dec := addrV2DecGo }
+
+def txExtra (t : Tx) : String :=
+  s!" size={(tx .witness).size t}/{(tx .base).size t} txid={listToHex (txid t)} wtxid={listToHex (wtxid t)}"
+
+def blockExtra (b : Block) : String :=
+  s!" size={(block .witness).size b}/{(block .base).size b} hash={listToHex (blockHash b.1)} txids=" ++
+    String.join (b.2.map (fun t => listToHex (txid t)))
+
+/-- kind → payload codec, `MaxPayloadLength(pver)`, extra observation; continuation-passing because the
+value types differ -/
+def withKind (kind : String) (pver : Nat) (e : TxEnc)
+    (k : ∀ {α : Type} [Dump α], Codec α → Nat → (α → String) → String) : Option String :=
+  let no {α : Type} : α → String := fun _ => ""
+  let mpl := maxPayload kind pver
+  match kind with
+  | "header" => some (k blockHeader 80 no)
+  | "tx" => some (k (tx e) mpl txExtra)
+  | "block" => some (k (block e) mpl blockExtra)
+  | "inv" | "getdata" | "notfound" => some (k invList mpl no)
+  | "headers" => some (k headers mpl no)
+  | "getblocks" | "getheaders" => some (k getBlocks mpl no)
+  | "addr" => some (k (addr pver) mpl no)
+  | "addrv2" => some (k addrV2Go mpl no)
+  | "version" => some (k (versionGo pver) mpl no)
+  | "ping" => some (k (ping pver) mpl no)
+  | "pong" => some (k (pong pver) mpl no)
+  | "reject" => some (k (reject pver) mpl no)
+  | "feefilter" => some (k (feeFilter pver) mpl no)
+  | "filterload" => some (k (filterLoad pver) mpl no)
+  | "filteradd" => some (k (filterAdd pver) mpl no)
+  | "filterclear" => some (k (emptyFrom pver BIP0037Version) mpl no)
+  | "mempool" => some (k (emptyFrom pver BIP0035Version) mpl no)
+  | "sendheaders" => some (k (emptyFrom pver SendHeadersVersion) mpl no)
+  | "sendaddrv2" => some (k (emptyFrom pver AddrV2Version) mpl no)
+  | "wtxidrelay" => some (k (emptyFrom pver AddrV2Version) mpl no)
+  | "verack" | "getaddr" => some (k emptyMsg mpl no)
+  | "merkleblock" => some (k (merkleBlock pver) mpl no)
+  | "cfilter" => some (k cfilter mpl no)
+  | "cfheaders" => some (k cfheaders mpl no)
+  | "cfcheckpt" => some (k cfcheckpt mpl no)
+  | "getcfilters" | "getcfheaders" => some (k getcfilters mpl no)
+  | "getcfcheckpt" => some (k getcfcheckpt mpl no)
+  | _ => none
+
+/-- commands `makeEmptyMessage` knows ("header" is not a message) -/
+def isCommand (kind : String) : Bool := kind != "header"
+
+def runDec {α : Type} [Dump α] (b : Bytes) (c : Codec α) (mpl : Nat) (extra : α → String) : String :=
+  match c.dec b with
+  | .error _ => "err" ++ allocTok (c.alloc b)
+  | .ok (a, r) =>
+    s!"ok {dump a} {listToHexTok (c.enc a)} {r.length} mpl={mpl} canon=1" ++ allocTok (c.alloc b) ++ extra a
+
+def runMsg {α : Type} [Dump α] (kind : String) (net : Nat) (b : Bytes) (c : Codec α) (mpl : Nat)
+    (_ : α → String) : String :=
+  let cmd := kind.toUTF8.toList
+  -- payload allocation + what the payload decoder allocates
+  let al := frame.alloc b + match frame.dec b with
+    | .ok ((_, _, pl), _) => c.alloc pl
+    | .error _ => 0
+  match readMessage c mpl net cmd b with
+  | .error _ => "err" ++ allocTok al
+  | .ok (a, r) =>
+    s!"ok {kind} {dump a} {listToHex (writeMessage c net cmd a)} {r.length} canon=1" ++ allocTok al
+
+def trimZeros (b : Bytes) : Bytes := (b.reverse.dropWhile (· == 0)).reverse
+
+def parseEnc? (s : String) : Option TxEnc :=
+  if s == "b" then some .base else if s == "w" then some .witness else none
+
+def bytesToString (b : Bytes) : String := String.fromUTF8! (ByteArray.mk b.toArray)
+
+def isPlainAscii (b : Bytes) : Bool := b.all (fun x => 0x61 ≤ x ∧ x ≤ 0x7a || (0x30 ≤ x ∧ x ≤ 0x39))
 
 def handle : List String → String
-  | _ => "unimplemented"
+  | ["varint", h] => match hexToList? h with
+    | some b => match varint.dec b with
+      | .error _ => "err"
+      | .ok (v, r) => s!"ok {v} {listToHexTok r} {listToHex (varint.enc v)} {varint.size v}"
+    | none => "bad-op"
+  | ["wvarint", n] => match n.toNat? with
+    | some v => if v < 2 ^ 64 then s!"{listToHex (varint.enc v)} {varint.size v}" else "bad-op"
+    | none => "bad-op"
+  | ["dec", kind, pver, e, h] =>
+    match pver.toNat?, parseEnc? e, hexToList? h with
+    | some pver, some e, some b =>
+      (withKind kind pver e (fun c mpl extra => runDec b c mpl extra)).getD "bad-op"
+    | _, _, _ => "bad-op"
+  | ["msg", pver, net, e, h] =>
+    match pver.toNat?, net.toNat?, parseEnc? e, hexToList? h with
+    | some pver, some net, some e, some b =>
+      if lenLt b 24 then "err a=ok" else
+      let cmd := trimZeros ((b.drop 4).take 12)
+      if !isPlainAscii cmd then "err" ++ allocTok (frame.alloc b) else
+      let kind := bytesToString cmd
+      if !isCommand kind then "err" ++ allocTok (frame.alloc b) else
+      (withKind kind pver e (fun c mpl extra => runMsg kind net b c mpl extra)).getD
+        ("err" ++ allocTok (frame.alloc b))
+    | _, _, _, _ => "bad-op"
+  | ["txbytes", h] => match hexToList? h with
+    | some b => match decodeAll (tx .witness) b with
+      | .error _ => "err"
+      | .ok t => s!"ok{txExtra t}"
+    | none => "bad-op"
+  | ["blockbytes", h] => match hexToList? h with
+    | some b => match decodeAll (block .witness) b with
+      | .error _ => "err"
+      | .ok t => s!"ok{blockExtra t}"
+    | none => "bad-op"
+  | _ => "bad-op"
 
 end BV.C08.Driver
